@@ -150,6 +150,32 @@ def model_requests(mexe, reqs):
     return out
 
 # ---------------------------------------------------------------------------------------------- checks
+def B0(N, na):
+    """the bound of C12_terminates_from_init, as written out by theorem C12_B0 (Properties_C12.v); B0(2,3) = 82 is Example C12_ex_bound"""
+    return (3 * N + 5) + ((na + N - 1) // N) * (6 + N * (9 + 2 * N)) + 3 * N + 1
+assert B0(2, 3) == 82
+
+def check_termination_bound(mexe, configs, out, cov):
+    """TEST of C12_terminates_from_init on the extracted model: the exact length of the longest schedule of thread steps from the
+    initial state (memoised DFS of the step-only graph, which must be acyclic) must not exceed B0(N, n_alpha).  Residual order:
+    strictly increasing (no trial step is accepted before the last one: every block runs — the longest case)."""
+    reqs = ["L%d_%d %d %d 1 %s longest" % (N, na, N, na, ",".join(map(str, range(na)))) for (N, na) in configs]
+    p = subprocess.run([mexe], input="\n".join(reqs) + "\n", stdout=subprocess.PIPE, stderr=subprocess.PIPE, text=True, timeout=900)
+    table = {}
+    for l in p.stdout.split("\n"):
+        if not l.startswith("longest "):
+            continue
+        f = l.split()
+        N, na = map(int, f[1][1:].split("_"))
+        table["N=%d,n_alpha=%d" % (N, na)] = {"longest": f[2], "B0": B0(N, na), "states": int(f[4])}
+        if f[2] == "cycle" or int(f[2]) > B0(N, na):
+            out.violation("C12:model:termination-bound", "the model's step-only graph for N=%d n_alpha=%d %s (C12_terminates would be false)"
+                          % (N, na, "has a cycle" if f[2] == "cycle" else "has a schedule of %s steps > B0 = %d" % (f[2], B0(N, na))),
+                          {"kind": "model", "request": [r for r in reqs if r.startswith(f[1] + " ")][0], "schedule": l.partition("|")[2].strip()})
+    if len(table) != len(configs):
+        out.violation("C12:model:termination-bound", "the model driver did not answer every `longest` request", {"kind": "model", "no_failing_input_found": True,
+                      "broken": "extract/handshake_driver longest", "stderr": p.stderr[-500:]})
+    cov["longest_schedule_vs_bound"] = table
 def check_forced(exe, mexe, datas, plan, out, cov, fixed_flag="1"):
     """plan: list of (data_index, N, mode_request_suffix).  Forces every generated schedule."""
     # phase A: sequential reference for each data set (free-running N=1 also serves as the first oracle run)
@@ -180,6 +206,13 @@ def check_forced(exe, mexe, datas, plan, out, cov, fixed_flag="1"):
         for (k, end, chosen, feas, steps) in mres[rid]["S"]:
             cid = "%s_%d" % (rid, k)
             sched, trace = project(steps)
+            # C12_terminates_from_init on this very schedule: #thread steps <= B0 + 2 * #spurious wake-ups
+            nspur = sum(1 for x in steps if x.endswith(":X"))
+            slack = B0(N, na) + 2 * nspur - (len(steps) - nspur)
+            cov["min_slack_to_termination_bound"] = min(cov.get("min_slack_to_termination_bound", slack), slack)
+            if slack < 0:
+                out.violation("C12:model:termination-bound", "a model schedule for N=%d n_alpha=%d has %d thread steps and %d spurious wake-ups: more than B0 + 2*spurious = %d"
+                              % (N, na, len(steps) - nspur, nspur, B0(N, na) + 2 * nspur), {"kind": "model", "N": N, "n_alpha": na, "model_steps": steps})
             lines.append(case_line(cid, datas[di], N, sched))
             expect[cid] = (rid, end, chosen, feas, trace, sched, steps)
             hist["N=%d,blocks=%d" % (N, -(-na // N))] += 1
@@ -443,6 +476,8 @@ def run(info, out):
         N = rng.choice([1, 1, 2, 2, 3, 3, 4, 5, 9])
         plan.append((len(datas) - 1, N, "rand %d %d %d" % (40 if thorough else 16, rng.below(1 << 20), rng.choice([0, 5, 15]))))
     refs = check_forced(exe, mexe, datas, plan, out, cov)
+    #    (c) termination bound against the exact longest schedule of small configurations (model only)
+    check_termination_bound(mexe, [(1, 2), (1, 3), (1, 4), (2, 2), (2, 3), (2, 4), (2, 5), (3, 3), (3, 4)] + ([(3, 6), (4, 4), (4, 5)] if thorough else []), out, cov)
 
     # 3. the property itself on free-running threads, every thread count
     nfree = check_free(exe, datas[len(small):][: (60 if thorough else 16) * boost] + datas[:len(small)], THREADS, 6 if thorough else 3, out, cov)
